@@ -1,2 +1,106 @@
--- driver stub (replaced when the model for C05 is built)
-def main : IO Unit := pure ()
+/-
+  Driver for the listing models (C05, C06, C07).  One request per line, one reply line.
+  The driver keeps the currently opened reader between requests.
+
+    open <hexpath> <0|1 isOutputData> <skip,skip|->     run t2listing.__init__ on the file
+    index <i>                                         listing.index = i
+    view                                              index, time, step and every table (names + cells)
+    info                                              simulator, result times/steps, table layouts
+-/
+import PyTough.Model.ListingFile
+import PyTough.Py.Proto
+open Py Model Model.Listing
+
+def showFVal : FVal → String
+  | .fin n m e => s!"{if n then "-" else ""}{m}e{e}"
+  | .inf n => if n then "-inf" else "inf"
+  | .nan => "nan"
+
+def showStep : Step → String
+  | some i => toString i
+  | none => "None"
+
+def hexOrDash (s : Str) : String := if s.isEmpty then "-" else toHex s
+
+def showKey (k : Key) : String := String.intercalate "," (k.map hexOrDash)
+
+def showTable (name : String) (t : Table) : String :=
+  let rows := String.intercalate " " (t.rows.toList.map showKey)
+  let cols := String.intercalate " " (t.cols.map hexOrDash)
+  let cells := String.intercalate " " (t.data.toList.map fun r => String.intercalate " " (r.toList.map showFVal))
+  s!"T {name} {t.rows.size} {t.cols.length} {rows} {cols} {cells}"
+
+def showView (s : Rd) : String :=
+  let tabs := String.intercalate " " (s.tables.map fun (n, t) => showTable n t)
+  s!"ok {s.index} {showFVal s.time} {showStep s.step} {s.tables.length} {tabs}"
+
+def showOpt (o : Option Int) : String := match o with | some i => toString i | none => "None"
+
+def showLayout (name : String) (t : Table) : String :=
+  let kp := String.intercalate "," (t.keyPos.map toString)
+  let np := String.intercalate "," (t.numpos.map showOpt)
+  let rl := match t.rowLine with
+    | some a => String.intercalate "," (a.toList.map toString)
+    | none => "-"
+  let sk := String.intercalate "," (t.skips.map toString)
+  s!"L {name} {t.numKeys} {if kp.isEmpty then "-" else kp} {if np.isEmpty then "-" else np} {t.headerSkip} {if sk.isEmpty then "-" else sk} {rl}"
+
+def showInfo (s : Rd) : String :=
+  let sim := match s.simulator with | some x => toHex x | none => "-"
+  let ft := String.intercalate "," (s.fulltimes.toList.map showFVal)
+  let fs := String.intercalate "," (s.fullsteps.toList.map showStep)
+  let allt := String.intercalate "," (s.times.toList.map showFVal)
+  let sh := String.intercalate "," (s.short.toList.map fun b => if b then "1" else "0")
+  let fp := String.intercalate "," (s.fullpos.toList.map fun p => toString p.no)
+  let st := String.intercalate "," (s.shortTypes.map toHex)
+  let tn := String.intercalate "," s.tablenames
+  let lay := String.intercalate " " (s.tables.map fun (n, t) => showLayout n t)
+  s!"ok sim={sim} title={hexOrDash s.title} n={s.fulltimes.size} fulltimes={ft} fullsteps={fs} times={allt} short={sh} fullpos={fp} shorttypes={st} tables={tn} {lay}"
+
+def runM (st : Rd) (m : M Unit) : Except LErr Rd :=
+  match m.run st with
+  | .ok (_, s) => .ok s
+  | .error e => .error e
+
+def bytesToStr (b : ByteArray) : Str := b.toList.map (fun x => Char.ofNat x.toNat)
+
+partial def loop (h out : IO.FS.Stream) (st : IO.Ref (Option Rd)) : IO Unit := do
+  let line ← h.getLine
+  if line.isEmpty then return ()
+  let ws := (line.trimAscii.toString.splitOn " ").filter (· ≠ "")
+  let reply ← match ws with
+    | ["open", hp, od, sk] => do
+      let path := String.ofList (ofHex hp)
+      try
+        let bytes ← IO.FS.readBinFile path
+        let skip := if sk = "-" then [] else sk.splitOn ","
+        let rd := initRd (bytesToStr bytes) (od = "1") skip
+        match runM rd openReader with
+        | .ok s => st.set (some s); pure s!"ok {s.fulltimes.size}"
+        | .error e => st.set none; pure s!"exc {e.toString}"
+      catch e => pure s!"ioerror {e}"
+    | ["index", i] => do
+      match (← st.get), i.toInt? with
+      | some s, some k =>
+        match runM s (setIndex k) with
+        | .ok s' => st.set (some s'); pure s!"ok {s'.index}"
+        | .error e => pure s!"exc {e.toString}"       -- the Python object would be left half-updated; the harness reopens
+      | _, _ => pure "bad-state"
+    | ["view"] => do
+      match (← st.get) with
+      | some s => pure (showView s)
+      | none => pure "bad-state"
+    | ["info"] => do
+      match (← st.get) with
+      | some s => pure (showInfo s)
+      | none => pure "bad-state"
+    | _ => pure "bad-op"
+  out.putStrLn reply
+  out.flush
+  loop h out st
+
+def main : IO Unit := do
+  let i ← IO.getStdin
+  let o ← IO.getStdout
+  let st ← IO.mkRef (none : Option Rd)
+  loop i o st
